@@ -16,6 +16,15 @@ CHECKS = {
     technique="TLA+ spec (Ledger/LedgerBlock) + TLC exhaustive + TLC trace validation of real runs"),
 }
 
+CHECKS["C02"] = dict(cat="fault_enumeration", ref="4 C02", engine="fault-enumeration+tlc",
+    text="Every SQL statement boundary of the enumerated blocks (before BEGIN, before each statement, before COMMIT, right after COMMIT) is a "
+         "crash point: the real daemon is SIGKILLed there, a fresh process reads the database, the run is resumed; each experiment is replayed "
+         "by TLC through Sync.tla (DiskIsPrefix, OnceInOrder, MemNotBehind evaluated in every state). Sync.tla itself is model-checked "
+         "exhaustively with crashes and faults at every pc, including liveness, and its deviation switches are shown to be caught.",
+    note="Process kill only: SQLite's atomic commit and the file system are trusted (no power loss / torn pages). Reference = uninterrupted "
+         "run of the same chain by the same build. Trusted: TLC, sqlwrap driver wrapper (checked not to perturb results), fake factomd.",
+    technique="TLA+ spec of the sync loop (Sync.tla) + TLC exhaustive + crash-point enumeration replayed through the spec")
+
 PENDING = {}
 
 def main():
@@ -57,6 +66,6 @@ def main():
     }
     json.dump(m, open(os.path.join(V, "MANIFEST.json"), "w"), indent=1)
 
-HOOK_COMMITS = []
+HOOK_COMMITS = ["fdd0f01", "853c3fd"]
 if __name__ == "__main__":
     main()
